@@ -129,6 +129,9 @@ namespace zoo {
    inline void extras(Ctx& c, std::string& o, const ipr::Scope& x)
    {
       VF_F("elements", x.elements()); VF_F("size", x.size()); VF_F("[N0]", x[*c.nm[0]]); VF_F("[never]", x[c.lex.get_identifier(u8"never-declared")]);
+      // which declaration a name and a type select (the overload set itself is anonymous)
+      field(c, o, "[N0][int]", [&]() -> std::string { auto ov = x[*c.nm[0]]; return ov.is_valid() ? render(c, ov.get()[c.lex.int_type()]) : std::string("-"); });
+      field(c, o, "[N0][T0]", [&]() -> std::string { auto ov = x[*c.nm[0]]; return ov.is_valid() ? render(c, ov.get()[*c.ty[0]]) : std::string("-"); });
    }
    template<class M>
    void udt_extras(Ctx& c, std::string& o, const ipr::Udt<M>& x) { VF_F("region", x.region()); VF_F("scope", x.scope()); VF_F("members", x.members()); }
